@@ -391,6 +391,13 @@ func (rn *runner) run(evs []hx.Group) {
 				pc = w.pubCb(int(ev[3]))
 			}
 			ok = w.cln.Subscribe(m, w.doneCb(int(ev[2]), nil), pc) == nil
+			// the message object belongs to the application again once the call has returned: it is reused for
+			// something else (the request in flight must not depend on it)
+			for _, t := range m.Topics() {
+				m.RemoveTopic(t)
+			}
+			m.AddTopic([]byte("reused/after/the/call"), 0)
+			m.SetPacketID(uint16(ev[1]) + 7)
 			pkts = w.barrier(nil)
 		case 2:
 			m := message.NewUnsubscribeMessage()
@@ -399,6 +406,11 @@ func (rn *runner) run(evs []hx.Group) {
 				m.AddTopic([]byte(f.f))
 			}
 			ok = w.cln.Unsubscribe(m, w.doneCb(int(ev[2]), nil)) == nil
+			for _, t := range m.Topics() {
+				m.RemoveTopic(t)
+			}
+			m.AddTopic([]byte("reused/after/the/call"))
+			m.SetPacketID(uint16(ev[1]) + 7)
 			pkts = w.barrier(nil)
 		case 3:
 			b := gbytes(ev, 6)
@@ -409,6 +421,8 @@ func (rn *runner) run(evs []hx.Group) {
 			m.SetRetain(ev[2] != 0)
 			m.SetPacketID(uint16(ev[3]))
 			ok = w.cln.Publish(m, w.doneCbE(int(ev[4]), nil, ev[1] != 0)) == nil
+			m.SetTopic([]byte("reused/after/the/call"))
+			m.SetPayload([]byte("reused"))
 			pkts = w.barrier(nil)
 		case 4:
 			ch := make(chan struct{})
